@@ -717,8 +717,11 @@ class Searcher(object):
             c = collectors.UnlimitedCollector(limit=limit)
         else:
             # A collector that uses block quality optimizations and a heap
-            # queue to only collect the top N documents
-            c = collectors.TopCollector(limit, usequality=optimize)
+            # queue to only collect the top N documents. (Collapsing has to see
+            # every matching document to count the ones it keeps and the ones
+            # it eliminates, so no skipping of blocks then.)
+            c = collectors.TopCollector(limit,
+                                        usequality=optimize and not collapse)
 
         if groupedby:
             c = collectors.FacetCollector(c, groupedby, maptype=maptype)
